@@ -78,9 +78,18 @@ class OrderJobs(Monitor):
 _WORLDS = {}
 
 
+_DEADLINE = [None]
+SCHED_BUDGET = {'quick': 900, 'thorough': 1800}
+
+
 def run_chunk(jobs):
-  out = {'runs': 0, 'violations': [], 'outcomes': set(), 'graph_differs': 0, 'followups': 0}
+  import time
+  out = {'runs': 0, 'violations': [], 'outcomes': set(), 'graph_differs': 0, 'followups': 0,
+         'skipped': 0}
   for (wname, origin, hist, label, bundle, sc, base) in jobs:
+    if _DEADLINE[0] and time.time() > _DEADLINE[0]:
+      out['skipped'] += 1
+      continue
     world = _WORLDS[wname]
     doc = _doc_for(world, origin, hist)
     schedule = {int(k): (tuple(v[0]) if v[0] is not None else None,
@@ -245,7 +254,11 @@ def run(tier, report):
   runs = 0
   outcomes = set()
   viols = []
+  import time
+  _DEADLINE[0] = time.time() + SCHED_BUDGET[tier]
+  skipped = 0
   for part in pmap(run_chunk, chunks):
+    skipped += part.get('skipped', 0)
     runs += part['runs']
     cov['graph_differs'] = cov.get('graph_differs', 0) + part['graph_differs']
     cov['followup_chains'] = cov.get('followup_chains', 0) + part['followups']
@@ -257,6 +270,11 @@ def run(tier, report):
   cov.update(info)
   cov['transitions'] = cov.get('transitions', 0) + runs
   cov['traces_validated_against_impl'] = runs
+  if skipped:
+    report.caps.append('time budget of %d s for the scheduled runs: %d of %d deviating schedules not '
+                       'executed' % (SCHED_BUDGET[tier], skipped, len(jobs)))
+    cov['exhaustive'] = False
+    cov['scheduled_runs_skipped'] = skipped
   if cov.get('bundles_capped') or info['capped_docs']:
     report.caps.append('work lists with more than %d nodes of one class: all orders of the first %d '
                        'plus every rotation and the reversal; at most %d schedules per bundle (not '
